@@ -701,6 +701,45 @@ fn check(c: &Case) -> Outcome {
     if let Err(v) = check_form(docs[1].0, &docs[1].1, &docs[1].2) {
         return o.with_verdict(v);
     }
+    // ---- a type definition under the name of a required export is not that export: the document declares
+    // an interface named like an inline-interface export of the world (type definitions are exported as types
+    // and the spread export skips the taken name), so the world's instance export is a *type* in the output
+    if let Some((name, items)) = w_items.iter().find_map(|i| if let WorldItem::ExportInline(n, its) = i { Some((n.clone(), its.clone())) } else { None }) {
+        if !resourceful && cs.exports.contains_key(&name) {
+            let decl = {
+                let w = render_world(apis, &Comp { name: "x:y".into(), version: None, items: vec![WorldItem::ImportInline("q".into(), items)] });
+                let mut body = String::new();
+                for l in w.lines().skip(4) {
+                    if l == "    }" {
+                        break;
+                    }
+                    body.push_str(l.trim_start());
+                    body.push(' ');
+                }
+                format!("interface {name} {{ {body}}}\n")
+            };
+            let text = format!("package test:comp targets tgt:wld/w;\n{decl}{body}");
+            comparisons += 1;
+            o = o.label("type-definition-under-export-name");
+            match resolve_doc(&text, &pkgs) {
+                Err(e) => return o.with_verdict(Verdict::GenInvalid(e)),
+                Ok(Ok(_)) => {
+                    return o.with_verdict(Verdict::Fail { sig: "C11/accepted-non-conforming:type-definition-under-export-name".into(), msg: format!("the world requires an instance export `{name}`; the composition exports a type definition of that name and is accepted\n{text}") });
+                }
+                Ok(Err(Ok(v))) => {
+                    let mut allowed = e_exact.clone();
+                    allowed.insert(Viol::Mismatch("export", name.clone()));
+                    if !allowed.contains(&v) {
+                        return o.with_verdict(Verdict::Fail { sig: format!("C11/wrong-diagnostic:type-definition-under-export-name:{}", viol_class(&v)), msg: format!("resolution reports {v:?}; expected one of {allowed:?}\n{text}") });
+                    }
+                }
+                Ok(Err(Err(other))) => {
+                    // e.g. the declaration conflicts with something else in the document: not this property's subject
+                    o = o.label(format!("type-shadow-other-error:{}", crate::props::c01::msg_class(&other)));
+                }
+            }
+        }
+    }
     o.comparisons(comparisons)
 }
 
@@ -735,7 +774,7 @@ pub fn run(tier: Tier, seed: u64, replay: Option<&std::path::Path>) -> i32 {
         tier,
         seed,
         "exploration",
-        "a target world (imports/exports of API interfaces at several versions incl. interfaces that `use` others, bare functions, inline interfaces) and a component built by the reference toolchain for that world after 0-2 perturbations (drop/extra import or export, changed function signature, another version of an interface, inline interface with one function more or less, an import replaced by the interfaces it uses). The composition instantiates the component with implicit imports and re-exports everything; in a third of the cases it also instantiates a second component that imports what the world imports, perturbed on its own, so that one import name is required at two types. A model of both sides (externs incl. the closure of used interfaces, cross-checked against the built component) predicts the set of conformance violations under exact-name lookup (resolution) and semver-aware lookup (stand-alone check). Checked: Document::resolve with the world taken from a WIT package and with the same world declared in the document accepts iff the set is empty and otherwise names one of the predicted violations; the targets clause does not change the bytes; validate_target on the encoded output reports exactly the predicted set; both verdicts coincide; for resource-free worlds the reference validator's component subtyping output <: world agrees. Non-trivial = perturbed, or world with used interfaces, or versioned names. Distinct by JSON hash.",
+        "a target world (imports/exports of API interfaces at several versions incl. interfaces that `use` others, bare functions, inline interfaces) and a component built by the reference toolchain for that world after 0-2 perturbations (drop/extra import or export, changed function signature, another version of an interface, inline interface with one function more or less, an import replaced by the interfaces it uses). The composition instantiates the component with implicit imports and re-exports everything; in a third of the cases it also instantiates a second component that imports what the world imports, perturbed on its own, so that one import name is required at two types. A model of both sides (externs incl. the closure of used interfaces, cross-checked against the built component) predicts the set of conformance violations under exact-name lookup (resolution) and semver-aware lookup (stand-alone check). Checked: Document::resolve with the world taken from a WIT package and with the same world declared in the document accepts iff the set is empty and otherwise names one of the predicted violations; the targets clause does not change the bytes; a document that declares an interface *type* under the name of a required instance export is rejected; validate_target on the encoded output reports exactly the predicted set; both verdicts coincide; for resource-free worlds the reference validator's component subtyping output <: world agrees. Non-trivial = perturbed, or world with used interfaces, or versioned names. Distinct by JSON hash.",
     );
     if let Some(p) = replay {
         run.replay_case::<Case, _>(p, check);
@@ -749,7 +788,7 @@ pub fn run(tier: Tier, seed: u64, replay: Option<&std::path::Path>) -> i32 {
         || (proptest::collection::vec(ifacespec_strategy(5), 1..4), any::<u8>(), compspec_strategy(), proptest::collection::vec(perturb_strategy(), 0..3), proptest::option::weighted(0.35, proptest::collection::vec(perturb_strategy(), 0..2))).prop_map(|(ifaces, versions, world, perturb, second)| Case { api: ApiSpec { ifaces }, versions, world, perturb, second }),
         check,
     );
-    for l in ["conforming", "non-conforming", "expect:import-not-in-target", "expect:missing-export", "expect:import-mismatch", "expect:export-mismatch", "world-with-used-interfaces", "versioned-names", "reference-subtyping-compared", "p:replace-import-by-used-interfaces", "two-instantiations", "second-instantiation-perturbed"] {
+    for l in ["conforming", "non-conforming", "expect:import-not-in-target", "expect:missing-export", "expect:import-mismatch", "expect:export-mismatch", "world-with-used-interfaces", "versioned-names", "reference-subtyping-compared", "p:replace-import-by-used-interfaces", "two-instantiations", "second-instantiation-perturbed", "type-definition-under-export-name"] {
         run.floor(l, 10);
     }
     run.finish()
